@@ -129,6 +129,14 @@ def build(backend):
             t2 = {"double"} if t == {"double"} else {"int"}
             add(f"repeated-value-mixed3:{hk}", f"{h}.Select(lambda p: (p, p + 1, p))", None, [t, t2, t])
             add(f"repeated-value-dict3:{hk}", f"{h}.Select(lambda p: {{'a': p, 'b': p * 2, 'c': p}})", ["a", "b", "c"], [t, t2, t])
+    # integer arithmetic with a literal beyond 32 bits: the column must be wide enough for the value (or the query refused)
+    wide = {"long long", "long", "Long64_t", "int64_t"}
+    for k, e in {"add-right": "(j.nTrk() + 4294967296)", "add-left": "(4294967296 + j.nTrk())", "mul-right": "(j.nTrk() * 3000000000)", "mul-left": "(3000000000 * j.nTrk())",
+                 "sub-right": "(j.nTrk() - 4294967296)", "mod-right": "(j.nTrk() % 4294967296)"}.items():
+        add(f"int64-arith:{k}", per.format(e), None, [wide])
+    add("int64-arith:ev-count", f"ds.Select(lambda e: {coll}.Count() + 4294967296)", None, [wide])
+    add("int64-arith:ev-vector", f"ds.Select(lambda e: {coll}.Select(lambda j: j.nTrk() * 4294967296))", None, [{f"std::vector<{w}>" for w in wide}])
+    add("int64-arith:dict", f"ds.Select(lambda e: {{'n': {coll}.Count() + 4294967296, 'm': 4294967296 + {coll}.Count()}})", ["n", "m"], [wide, wide])
     add("selectmany-scalar", f"ds.SelectMany(lambda e: {coll}.Select(lambda j: j.q()))", None, [{"float"}])
     return cases
 
